@@ -468,6 +468,19 @@ theorem nil_error_callback_unhandled_only_panics (cfg : ObsNil.Cfg) (fault : Nat
     ∀ e ∈ (ObsNil.run cfg fault script).unhandled, ∃ k p, fault k = some p ∧ e = .observer p :=
   ObsNil.unhandled_only_panics cfg fault he script
 
+/-- C07 / C01, a full observer (`NewObserver`) under ANY panic plan of its value callback - the listed finding "an observer
+    stays open after its own `onNext` panicked", stated exactly: a value whose invocation panics is replaced, in place, by the
+    wrapped panic handed to the error callback; the later values of the gated script and its terminal still follow; nothing
+    reaches the unhandled-error hook -/
+theorem newObserver_under_panics (fault : Nat → Option Err) (script : List (Notif Int)) :
+    (ObsPartial.run .full fault script).seen = ObsPartial.pickFull fault 0 (gate script) ∧
+    (ObsPartial.run .full fault script).unhandled = [] :=
+  ⟨ObsPartial.seen_full_fault fault script, ObsPartial.unhandled_nil .full fault script⟩
+
+-- the deviation from C01 in one line: an Error in the middle of the values
+example : (ObsPartial.run .full (fun k => if k = 0 then some (.user 5) else none) [.next {} 1, .next {} 2, .complete {}]).seen
+    = [.error {} (.observer (.user 5)), .next {} 2, .complete {}] := by decide
+
 /-- C07 / C01, `OnNext` under ANY panic plan of its one callback (every invocation: returns | panics): the callback has
     returned normally from exactly the values of the gated script whose invocation did not panic, in order; a panic neither
     closes the observer nor loses a later value, and nothing reaches the unhandled-error hook -/
@@ -491,6 +504,7 @@ end Ro.C07
 
 #print axioms Ro.C07.partial_observer_unhandled_silent
 #print axioms Ro.C07.onNext_under_panics
+#print axioms Ro.C07.newObserver_under_panics
 #print axioms Ro.C07.nil_error_callback_panic_unhandled
 #print axioms Ro.C07.nil_callbacks_dropped_from_script
 #print axioms Ro.C07.nil_error_callback_unhandled_only_panics
